@@ -5,11 +5,12 @@ import numpy as np
 
 import c08_impl
 import run_ladim as rl
+import setup_impl as su
 import sim_impl as si
 
 PROP = "C08"
 THEOREM_FILE = "Props/C08.v"
-CHECKER = "Corr.SimInst"
+CHECKER = "Corr.SysRun"
 SHARD = 4
 RULE = ("This property is a differential statement, so the oracle is the real thing: generated scenarios (depth-dependent "
         "time-varying current, continuous or discrete release, deaths by IBM lifetime and at the open boundary, IBM "
@@ -43,6 +44,10 @@ def gen_cases(ctx):
                                          # default (None: each run's own start, so the restarted run has a different one)
                                          "reference": [N * 600 + 7200, (N // 2) * 600 + 300, None, -86400, 0][ci % 5]},
                     "seed": rng.randrange(10**6)})
+    # whole set-ups (Model/Setup.v, SetupWarm.v): irregular frames in several files, forward and reversed clocks,
+    # multiplicities; the split run and a restart from every file boundary against the model's restarted run
+    for q in range(6 if ctx.quick else 60):
+        out.append({"k": "setup", "setup": su.gen_setup(rng), "numrec": rng.choice([1, 2, 2, 3]), "seed": rng.randrange(10**6)})
     return out
 
 
@@ -52,6 +57,11 @@ def eval_case(desc, ctx):
         f.unlink()
     if desc["k"] == "impl":
         return eval_impl(desc, d)
+    if desc["k"] == "setup":
+        cases, problems, nt = su.eval_restart(desc["setup"], d, desc["numrec"])
+        return {"ints": cases, "oracle": "; ".join(problems[:3]) or None, "nontrivial": (desc["seed"], "setup") if nt else None,
+                "kind": "setup-restart-" + ("rev" if desc["setup"]["rev"] else "fwd"),
+                "observed": {"frames": desc["setup"]["fsteps"], "numrec": desc["numrec"], "restarts": len(cases) - 1}}
     env, numrec = desc["env"], desc["numrec"]
     cold, files, conf = si.run_forward(d, env, "cold", numrec=numrec)
     runs = [si.enc_run(0, 0, cold)]
@@ -70,7 +80,7 @@ def eval_case(desc, ctx):
         pw = {q for r in want for q, *_ in r["rows"]}; p0 = {q for q, *_ in last["rows"]}
         if (p0 - pw) and (pw - p0):
             nontriv = True
-    ints = si.enc_env(env) + [len(runs)] + [x for r in runs for x in r]
+    ints = [0] + si.enc_env(env) + [len(runs)] + [x for r in runs for x in r]
     return {"ints": ints, "oracle": "; ".join(problems[:3]) or None, "nontrivial": (desc["seed"],) if nontriv else None,
             "kind": f"sim-numrec{numrec}", "observed": {"files": len(files), "records": len(cold)}}
 
